@@ -85,6 +85,8 @@ M = [
     ("C10", "payload-file-read-error-skips-the-slot", S + "cmd_cache_create.py", '            with open(input_file, "rb") as f:\n                data = f.read()\n\n            cache.add_cache_slot(uri, data)\n', '            try:\n                with open(input_file, "rb") as f:\n                    data = f.read()\n            except OSError:\n                continue\n\n            cache.add_cache_slot(uri, data)\n'),
     ("C05", "digest-file-read-in-chunks-error-ends-the-loop", S + "suit/security.py", '                with open(digest_dict["file"], "rb") as fd:\n                    obj[suit_digest_bytes.name] = hfunc.hash(fd.read())', '                _buf = b""\n                with open(digest_dict["file"], "rb") as fd:\n                    try:\n                        while _c := fd.read(4096):\n                            _buf += _c\n                    except OSError:\n                        pass\n                obj[suit_digest_bytes.name] = hfunc.hash(_buf)'),
     ("C11", "extracted-payload-write-error-ignored", S + "cmd_payload_extract.py", '        with open(output_payload_file, "wb") as fh:', '        import contextlib\n        with contextlib.suppress(OSError), open(output_payload_file, "wb") as fh:'),
+    ("C16", "bin2hex-status-ignored", S + "cmd_image.py", "        if err := bin2hex(input_file, dfu_partition_output_file, dfu_partition_address):\n            raise GeneratorError(f\"Failed to convert {input_file} to {dfu_partition_output_file}: {err}\")\n", "        bin2hex(input_file, dfu_partition_output_file, dfu_partition_address)\n"),
+    ("C04", "signed-envelope-write-error-ignored", S + "cmd_sign.py", '    with open(output_file, "wb") as fh:\n        cbor2.dump(envelope, fh)\n', '    import contextlib\n    with contextlib.suppress(OSError), open(output_file, "wb") as fh:\n        cbor2.dump(envelope, fh)\n'),
     ("C17", "revert-F13-shared-values-accepted", S + "suit/types/common.py", '        SuitObject.reject_shared_values(value)\n        return value\n', '        return value\n'),
     ("C18", "payload-file-memo-by-path", S + "cmd_cache_create.py", '            with open(input_file, "rb") as f:\n                data = f.read()\n\n            cache.add_cache_slot(uri, data)', '            with open(input_file, "rb") as f:\n                data = globals().setdefault("_FILES", {}).setdefault(input_file, f.read())\n\n            cache.add_cache_slot(uri, data)'),
     ("C18", "parsed-envelope-memo-by-path-and-size", S + "input_output.py", '        with open(file_name, "rb") as fh:\n            data = fh.read()\n            suit = SuitEnvelopeTagged.from_cbor(data)\n            return suit.to_obj()', '        with open(file_name, "rb") as fh:\n            data = fh.read()\n            memo = globals().setdefault("_PARSED", {})\n            key = (str(file_name), len(data))\n            if key not in memo:\n                memo[key] = SuitEnvelopeTagged.from_cbor(data).to_obj()\n            import copy\n            return copy.deepcopy(memo[key])'),
